@@ -53,6 +53,11 @@ class ObjT(T):
     def __repr__(self): return f"Obj[{self.cls}]"
 
 
+class KwDictT(T):
+    """dict with string keys from a known set; every key is optional (absent or present with a value of its type)."""
+    def __init__(self, **fields): self.fields = fields
+
+
 class SeqT(T):
     def __init__(self, elem=Int, inv=None): self.elem, self.inv = elem, inv
 
@@ -111,6 +116,8 @@ def mk(t, name, inv):
         if "__id__" not in o.fields:
             o.fields["__id__"] = fresh(name + ".__id__", I)
         return o
+    if isinstance(t, KwDictT):
+        return ObjV("__kwdict__", {k: Opt(fresh(f"{name}[{k}].absent", B), mk(ft, f"{name}[{k}]", inv)) for k, ft in t.fields.items()})
     if isinstance(t, SeqT):
         s = SeqV(fresh(name + ".arr", AII), fresh(name + ".n", I), t.elem)
         inv.append(s.n >= 0)
